@@ -8,7 +8,7 @@ from harness import core, py2lean, instantiate
 from harness.core import Outcome, f2b, b2f
 
 ID = "C06"
-LEAN_TARGETS = ["BeyondVerif.Props.C06"]
+LEAN_TARGETS = ["BeyondVerif.Props.C06", "BeyondVerif.Props.C06Iter"]
 THEOREMS = [
     "BeyondVerif.C06.trees_orders_gammas",
     "BeyondVerif.C06.euler_order1",
@@ -37,53 +37,101 @@ THEOREMS = [
     "BeyondVerif.C06.step_scale_law",
     "BeyondVerif.C06.step_scale_shrinks",
     "BeyondVerif.C06.step_scale_shrinks_backward",
+    "BeyondVerif.C06.runOps_get",
+    "BeyondVerif.C06.reuse_eq_fresh",
+    "BeyondVerif.C06.result_depends_on_current_values_only",
+    "BeyondVerif.C06.current_method_selects_step",
+    "BeyondVerif.C06.current_method_selects_fixed_step",
+    "BeyondVerif.C06.current_tol_bounds_accepted_step",
+    "BeyondVerif.C06.copy_keeps_settings",
+    "BeyondVerif.C06.butcher_names",
+    "BeyondVerif.C06.copy_then_call",
+    "BeyondVerif.C06.marchWith_exit",
+    "BeyondVerif.C06.marchWith_consumes",
+    "BeyondVerif.C06.marchWith_incr",
+    "BeyondVerif.C06.interpFlag_spec",
+    "BeyondVerif.C06.march_reaches_stop_and_pads",
+    "BeyondVerif.C06.pad_length",
+    "BeyondVerif.C06.position_full_order",
+    "BeyondVerif.C06.iter_interpolates_at_full_order",
+    "BeyondVerif.C06.outputs_inside_tabulation",
 ]
 LEVEL_TEXT = ("Lean theorems over R about the four Butcher tableaux, the per-body attraction, the step-size update and MAX_ITER translated from "
               "keplernum.py on every run: all rooted-tree order conditions (Euler 1; RK4 all 8 up to order 4; RKF54 and DOPRI54 all 17 up to order 5 for "
               "the propagated weights, all 8 up to order 4 for the embedded weights), row sums and shape for every integrator, FSAL row; the modelled "
               "field is Newton's law, central and energy-conserving; for the modelled step: exact quadrature of polynomial right-hand sides of degree < p "
               "for every step size, Taylor polynomial of exp on the linear test equation, an adaptive step is only accepted with its estimate <= tol, a "
-              "rejected step strictly shrinks and keeps its sign. The step model is tied to KeplerNum._make_step/_accel by a differential correspondence run.")
+              "rejected step strictly shrinks and keeps its sign. One KeplerNum object through any history of attribute assignments (method, step, tol, "
+              "bodies, in-place list changes), copy() and calls: the reply to a call is a function of the CURRENT attribute values only (= the reply of a "
+              "fresh object), the step is that of the tableau selected by the current method, copy() keeps every setting. The padding rule of _iter "
+              "(loop condition, interp flag, padding count, order argument of Ephem(...) and DEFAULT_ORDER translated from the source on every run): "
+              "whenever an output is interpolated the tabulation holds >= DEFAULT_ORDER points, starts at the start, reaches the stop and is interpolated "
+              "at order DEFAULT_ORDER however short the span; the same for the positioning phase of propagate(). The step model, the object histories "
+              "and the tabulations are tied to KeplerNum._make_step/_accel, to real objects driven through the same histories, and to the Ephem objects "
+              "the real _iter builds, by differential correspondence runs.")
 LEVEL_NOTE = ("the classical theorem 'order conditions up to p => global convergence at order p' is cited, not formalised; convergence of the real propagator, "
-              "first-integral drift and resampling independence are searched by the oracle only; R -> double gap covered by tolerance-bounded correspondence; "
-              "Lean kernel + propext/Classical.choice/Quot.sound; AST translator and harness trusted")
-TECHNIQUE = ("Lean 4 proof (norm_num / ring / rpow lemmas / induction on fuel) over tables and formulas regenerated from the Python AST; "
-             "differential correspondence of the compiled step model with KeplerNum._make_step/_accel")
+              "first-integral drift and resampling independence are searched by the oracle only; the Lagrange window arithmetic of utils/interp.py is C09's; "
+              "R -> double gap covered by tolerance-bounded correspondence; Lean kernel + propext/Classical.choice/Quot.sound; AST translator and harness trusted")
+TECHNIQUE = ("Lean 4 proof (norm_num / ring / rpow lemmas / induction on fuel, on histories and on the list of accepted step sizes / omega) over tables, "
+             "formulas and loop conditions regenerated from the Python AST; differential correspondence of the compiled models with KeplerNum._make_step/_accel, "
+             "with real objects driven through random operation sequences, and with the tabulations the real _iter hands to Ephem")
 TRUSTED = [
     "harness/props/C06.py: extract() reads BUTCHER (entries kept as the source's rational expressions), the body of `for body in self.bodies` of _accel, "
     "the step-size update statement and MAX_ITER of _make_step from the AST into Generated/KeplerNum{F,R}.lean on every run; the tableau reading is "
     "self-checked bit-exactly against the live KeplerNum.BUTCHER, and the compiled Float instantiation is compared with it again in the correspondence run",
-    "lean/templates/RK.tpl (hand-written stage loop, weight combination, error estimate, accept/shrink loop), tied by the correspondence run",
+    "harness/props/C06.py: translate_iter() reads from `KeplerNum._iter` the condition of the march loop, the `interp` assignment, the padding count of the "
+    "positioning phase and the `order` argument of both Ephem(...) calls, from ephem.py DEFAULT_ORDER and the order defaulting of Ephem.__init__, into "
+    "Generated/KNIterSrc.lean; the loop bodies and the positioning loop condition are compared textually with what Model/KNIter.lean models (any other "
+    "shape is an extraction failure = a broken obligation)",
+    "lean/templates/RK.tpl (hand-written stage loop, weight combination, error estimate, accept/shrink loop), lean/templates/KNObj.tpl (attribute state "
+    "machine), lean/BeyondVerif/Model/KNIter.lean (march / padding over the reported step sizes): tied by the correspondence runs",
     "harness/py2lean.py Tr.expr for scalar entries",
     "numpy / libm double arithmetic vs R: tolerance 1e-11 relative on the step result",
 ]
 ASSUMPTIONS = [
-    "point-mass bodies, no maneuvers (ImpulsiveMan/ContinuousMan handling of _make_step/_accel belongs to C17); tol > 0",
-    "theorems are over R; the implementation computes in IEEE doubles; dates/steps have microsecond resolution (usRound in the model)",
+    "point-mass bodies, no maneuvers in the Lean model (ImpulsiveMan/ContinuousMan handling of _make_step/_accel belongs to C17; the re-use oracle does "
+    "change the orbit's maneuvers between calls and compares with a fresh propagator); tol > 0",
+    "theorems are over R; the implementation computes in IEEE doubles; dates/steps have microsecond resolution (usRound in the model; Int microseconds in KNIter)",
     "cited, not formalised: order conditions for all rooted trees with <= p vertices imply local error O(h^(p+1)) and global convergence at order p "
     "(Butcher; Hairer-Norsett-Wanner, Solving ODEs I, II.2-II.3); the list of the 17 trees with <= 5 vertices is hand-written (orders and densities proved)",
     "the embedded error estimate p_error is a cancelling sum (sum(b - b_star) = 0): passes whose estimate lies within 2e-16 |h||v| of tol are "
     "incomparable between numpy's and the model's summation order and are skipped by the correspondence (counted as step-borderline-skipped)",
+    "object histories in the Lean model use bodies at rest (the correspondence drives real KeplerNum objects with duck-typed fixed bodies); the `frame` "
+    "attribute, the bound orbit and its maneuvers are outside the Lean state machine and covered by the re-use oracle on the public API",
+    "KNIter takes the accepted step sizes `_make_step` reports as an input list (observed on the real run in the correspondence); theorems hold for every such list",
 ]
 NOT_COVERED = [
     "global convergence of the real propagator at order p, energy / angular-momentum drift bounds, adaptive error per step and over a span: oracle only "
-    "(observed order by step halving read off the pair (h/2, h/4): >= 3.5 for RK4, >= 0.7 for Euler — one-sided, because over whole numbers of "
-    "revolutions the h^4 term nearly cancels and RK4 shows 4.9; error bounds scaled by (n_p h)^p resp. tol; one-step local error <= 2 tol)",
+    "(observed order by step halving read off the finest pair above the interpolation floor: >= 3.5 for RK4, >= 0.7 for Euler — one-sided, because over "
+    "whole numbers of revolutions the h^4 term nearly cancels and RK4 shows 4.9; error bounds scaled by (n_p h)^p resp. tol; one-step local error <= 2 tol)",
     "resampling accuracy (Ephem Lagrange-8 over float MJD): oracle only. The 'few millimetres' of the property hold for n_p*h <= 0.05; the floor is "
     "6 ulp(MJD) x speed (up to 15 mm observed at perigee speed, edge interval) and the Lagrange remainder reaches decimetres to metres for the coarsest "
     "steps in low eccentric orbits (observed 7 m at h = 120 s, e = 0.6, perigee 200 km), tolerance 5 rp (n_p h)^8 there",
-    "_iter's bookkeeping (pre-positioning loop, padding to 8 points, date accumulation): oracle only here; the iteration contract is C08 "
-    "(iter(stop=..., step=...) also yields dates after `stop`, up to the first integration node past it — reported to C08)",
-    "targets within +-3 orbits are reached by the thorough tier only up to 900 integration steps per run (quick: 110)",
+    "which `order` points of the tabulation Interp._lagrange selects around a date (window arithmetic): C09; here only that the tabulation has them and "
+    "which order is requested (observed on the Ephem objects the real _iter builds)",
+    "the dates `_iter` yields (Ephem.iter, Date.range): the iteration contract is C08 (iter(stop=..., step=...) also yields dates after `stop`, up to the "
+    "first integration node past it — reported to C08); the short-span oracle checks that the requested dates come first",
+    "targets within +-3 orbits are reached by the thorough tier only up to 900 integration steps per run (quick: 130)",
 ]
 OPEN = ["accel_energy is the algebraic identity v.a + mu (r.v)/rho^3 = 0; the HasDerivAt form (the attraction is the gradient of mu/rho) is not stated",
         "quadrature exactness and the linear test equation are stated per tableau with explicit polynomial coefficients, not as one theorem "
-        "'bushy/tall-tree conditions => exactness' for an arbitrary tableau"]
+        "'bushy/tall-tree conditions => exactness' for an arbitrary tableau",
+        "the object state machine has no `frame` / bound-orbit component (the `orbit` setter converts a copy at every Orbit.propagate / Orbit.iter call); "
+        "KNIter does not model Ephem.iter / the yielded dates (C08's model does)"]
 RULE = ("correspondence: the five method names incl. unknown ones (tableaux bit-exact), _accel with Earth/Moon/Sun combinations on random bound orbits "
         "(perigee 200 km .. GEO+, e <= 0.74), _make_step for all four methods, steps 5-120 s both signs, tol 1e-9..1e-2, rtol 1e-11 (step size exact when "
-        "not shrunk); non-trivial = step != 0; distinct = distinct request line. oracle: RK4/Euler observed order by step halving against an independent "
-        "universal-variable Kepler solution, error bounds, energy/momentum drift, adaptive global and one-step error, independence of output step, "
-        "dates-vs-step, propagate-vs-iterate, chained propagate keeps (method, step, tol); forward and backward targets")
+        "not shrunk); histories of 3-10 operations on ONE real KeplerNum object (assign method incl. upper-case / unknown names, step, tol, bodies; "
+        "bodies.append / pop in place; copy(); _make_step; butcher) against the model's state machine, each disagreeing call also compared with a fresh real "
+        "object (a difference there is a violation of the property itself); the Ephem objects (dates, order) the real _iter builds and its number of "
+        "_make_step calls for every request form (explicit step smaller/equal/larger/incommensurate, date lists, ranges, backward, offset start, "
+        "Orbit.ephem, propagate, native step, step is self.step, listeners) on spans of 1..10 steps, all four methods, against KNIter fed with the "
+        "observed accepted step sizes (exact); non-trivial = step != 0 resp. a call after a change resp. >= 1 integration step; distinct = distinct request "
+        "line. oracle, cheap families first: short spans (1..10 integration steps, the twelve request forms, every method) iterate vs propagate vs "
+        "analytical; one KeplerNum object re-used after changes of method / step / tol / bodies (also in place) / frame / maneuvers / bound orbit vs a "
+        "fresh propagator and vs the analytical solution; adaptive global and one-step error over <= 30 steps both directions; chained propagate keeps "
+        "(method, step, tol); then RK4/Euler observed order by step halving against an independent universal-variable Kepler solution, error bounds, "
+        "energy/momentum drift, independence of output step, dates-vs-step, propagate-vs-iterate (all four methods); forward and backward targets. "
+        "When a proof or a correspondence is broken the quick-tier sweep stops at the first failing input that is not a listed open finding.")
 
 KN_PY = os.path.join(core.REPO, "beyond", "propagators", "keplernum.py")
 METHODS = ["euler", "rk4", "rkf54", "dopri54"]
@@ -296,11 +344,138 @@ def translate_step_scale(tree):
     return text
 
 
+class _Cond:
+    """translator for the few Boolean / counting expressions of `KeplerNum._iter` (Python -> Lean Bool / Nat / Int).
+    Names: dates of type Int, `len(ephem)` and `Ephem.DEFAULT_ORDER` of type Nat, flags of type Bool."""
+
+    def __init__(self, names):
+        self.names = names      # python name -> (lean text, type in {"B", "I", "N"})
+        self.tr = py2lean.Tr()
+
+    def expr(self, e):
+        U = py2lean.Untranslatable
+        if isinstance(e, ast.Name) and e.id in self.names:
+            return self.names[e.id]
+        if self.tr.dotted(e) == "Ephem.DEFAULT_ORDER":
+            return "defaultOrder", "N"
+        if isinstance(e, ast.Call) and isinstance(e.func, ast.Name) and len(e.args) == 1 and not e.keywords:
+            if e.func.id == "len" and isinstance(e.args[0], ast.Name) and e.args[0].id == "ephem":
+                return "len", "N"
+            if e.func.id == "bool" and isinstance(e.args[0], ast.Name) and e.args[0].id == "listeners":
+                return "listening", "B"
+        if isinstance(e, ast.Call) and isinstance(e.func, ast.Name) and e.func.id in ("min", "max") and len(e.args) == 2 and not e.keywords:
+            (a, ta), (b, tb) = self.expr(e.args[0]), self.expr(e.args[1])
+            if ta == tb == "N":
+                return f"({e.func.id} {a} {b})", "N"
+        if isinstance(e, ast.BoolOp):
+            parts = [self.expr(v) for v in e.values]
+            if all(t == "B" for _, t in parts):
+                return "(" + (" || " if isinstance(e.op, ast.Or) else " && ").join(p for p, _ in parts) + ")", "B"
+        if isinstance(e, ast.UnaryOp) and isinstance(e.op, ast.Not):
+            a, t = self.expr(e.operand)
+            if t == "B":
+                return f"(!{a})", "B"
+        if isinstance(e, ast.IfExp):
+            (c, tc), (a, ta), (b, tb) = self.expr(e.test), self.expr(e.body), self.expr(e.orelse)
+            if tc == "B" and ta == tb:
+                return f"(if {c} then {a} else {b})", ta
+        if isinstance(e, ast.Compare) and len(e.ops) == 1:
+            op, rhs = e.ops[0], e.comparators[0]
+            if isinstance(op, (ast.IsNot, ast.Is)) and isinstance(rhs, ast.Constant) and rhs.value is None and isinstance(e.left, ast.Name):
+                flag = {"dates": "datesGiven", "step": "stepGiven"}.get(e.left.id)
+                if flag:
+                    return (flag if isinstance(op, ast.IsNot) else f"(!{flag})"), "B"
+            sym = {ast.Lt: "<", ast.Gt: ">", ast.LtE: "≤", ast.GtE: "≥", ast.Eq: "=", ast.NotEq: "≠"}.get(type(op))
+            if sym:
+                (a, ta), (b, tb) = self.expr(e.left), self.expr(rhs)
+                if ta == tb and ta in ("I", "N"):
+                    return f"decide ({a} {sym} {b})", "B"
+        if isinstance(e, ast.BinOp) and isinstance(e.op, (ast.Sub, ast.Add)):
+            (a, ta), (b, tb) = self.expr(e.left), self.expr(e.right)
+            if ta == tb == "N":
+                # only used as the argument of `range(...)`: a negative count is an empty range = truncated subtraction
+                return f"({a} {'-' if isinstance(e.op, ast.Sub) else '+'} {b})", "N"
+        raise U("_iter expression " + ast.unparse(e)[:100])
+
+
+def translate_iter(tree, ephem_tree):
+    """the padding rule of `KeplerNum._iter`: loop condition of the march, `interp`, padding count of the positioning phase,
+    the `order` argument of the two `Ephem(...)` calls; `Ephem.DEFAULT_ORDER`"""
+    U = py2lean.Untranslatable
+    cls = next(n for n in ephem_tree.body if isinstance(n, ast.ClassDef) and n.name == "Ephem")
+    order = [s.value.value for s in cls.body if isinstance(s, ast.Assign) and isinstance(s.targets[0], ast.Name) and s.targets[0].id == "DEFAULT_ORDER"
+             and isinstance(s.value, ast.Constant) and isinstance(s.value.value, int)]
+    # `self.order = order if isinstance(order, int) else self.DEFAULT_ORDER` in Ephem.__init__
+    init = next(s for s in cls.body if isinstance(s, ast.FunctionDef) and s.name == "__init__")
+    oas = [ast.unparse(s.value) for s in ast.walk(init) if isinstance(s, ast.Assign) and ast.unparse(s.targets[0]) == "self.order"]
+    if len(order) != 1 or oas != ["order if isinstance(order, int) else self.DEFAULT_ORDER"]:
+        raise U("Ephem.DEFAULT_ORDER / Ephem.__init__ order defaulting not recognised")
+    fn = py2lean.find_function(tree, "KeplerNum._iter")
+    calls_make_step = lambda node: any(isinstance(c, ast.Call) and py2lean.Tr().dotted(c.func) == "self._make_step" for c in ast.walk(node))
+    pos_if = [s for s in fn.body if isinstance(s, ast.If) and ast.unparse(s.test) == "start != orb.date"]
+    main_while = [s for s in fn.body if isinstance(s, ast.While) and calls_make_step(s)]
+    interp = [s for s in fn.body if isinstance(s, ast.Assign) and isinstance(s.targets[0], ast.Name) and s.targets[0].id == "interp"]
+    if len(pos_if) != 1 or len(main_while) != 1 or len(interp) > 1:
+        raise U("_iter: positioning block / main loop not recognised")
+    # the body of both loops is `real_step, orb = self._make_step(orb, _step); ephem.append(orb)[; date += real_step]`
+    body_txt = "real_step, orb = self._make_step(orb, _step)\nephem.append(orb)"
+    pos_while = [s for s in pos_if[0].body if isinstance(s, ast.While)]
+    pos_for = [s for s in pos_if[0].body if isinstance(s, ast.For)]
+    if (len(pos_while) != 1 or len(pos_for) != 1 or ast.unparse(pos_while[0].test) != "getattr(date, mname)(start)"
+            or "\n".join(ast.unparse(s) for s in pos_while[0].body) != body_txt + "\ndate += real_step"
+            or "\n".join(ast.unparse(s) for s in pos_for[0].body) != body_txt
+            or "\n".join(ast.unparse(s) for s in main_while[0].body) != body_txt + "\ndate += real_step"
+            or not (isinstance(pos_for[0].iter, ast.Call) and ast.unparse(pos_for[0].iter.func) == "range" and len(pos_for[0].iter.args) == 1)):
+        raise U("_iter: loops of the positioning phase / the march not recognised")
+    names = {"date": ("date", "I"), "stop": ("stop", "I"), "start": ("start", "I"), "backward": ("backward", "B"), "interp": ("interp", "B")}
+    c = _Cond(names)
+    cond, tcond = c.expr(main_while[0].test)
+    if interp:
+        itxt, _ = _Cond({}).expr(interp[0].value)
+    else:
+        itxt = "false"          # no `interp` flag in the source
+        if "interp" in {n.id for n in ast.walk(main_while[0].test) if isinstance(n, ast.Name)}:
+            raise U("_iter: `interp` used but not assigned")
+    pad, tpad = c.expr(pos_for[0].iter.args[0])
+    if tcond != "B" or tpad != "N":
+        raise U("_iter: types of the loop condition / padding count")
+
+    def order_arg(stmts, what):
+        calls = [s.value for s in stmts if isinstance(s, ast.Assign) and isinstance(s.value, ast.Call) and ast.unparse(s.value.func) == "Ephem"]
+        if len(calls) != 1 or [ast.unparse(a) for a in calls[0].args] != ["ephem"] or any(k.arg != "order" for k in calls[0].keywords):
+            raise U("_iter: Ephem(...) call of " + what)
+        if not calls[0].keywords:
+            return "none"
+        txt, t = c.expr(calls[0].keywords[0].value)
+        if t != "N":
+            raise U("_iter: order argument of " + what)
+        return f"some {txt}"
+    oa_pos = order_arg(pos_if[0].body, "the positioning phase")
+    oa_main = order_arg(fn.body, "the march")
+    return ("/- GENERATED by harness/props/C06.py from beyond/propagators/keplernum.py (`KeplerNum._iter`) and beyond/orbits/ephem.py on every run -/\n"
+            "namespace BeyondVerif.Generated.KNIterSrc\nset_option linter.unusedVariables false\n\n"
+            f"/-- `Ephem.DEFAULT_ORDER` -/\ndef defaultOrder : Nat := {order[0]}\n\n"
+            f"/-- `interp = {ast.unparse(interp[0].value) if interp else '(absent)'}` -/\n"
+            f"def interpFlag (datesGiven stepGiven listening : Bool) : Bool := {itxt}\n\n"
+            f"/-- `while {ast.unparse(main_while[0].test)}:` (the march over the requested span; `len` is `len(ephem)`) -/\n"
+            f"def marchCond (backward interp : Bool) (date stop : Int) (len : Nat) : Bool := {cond}\n\n"
+            f"/-- `for i in range({ast.unparse(pos_for[0].iter.args[0])}):` (padding of the positioning phase) -/\n"
+            f"def padCount (len : Nat) : Nat := {pad}\n\n"
+            "/-- the `order` argument of `Ephem(ephem, ...)` in the positioning phase, `len = len(ephem)`; `none` = not passed -/\n"
+            f"def ephemOrderArgPos (len : Nat) : Option Nat := {oa_pos}\n\n"
+            "/-- the `order` argument of `Ephem(ephem, ...)` over the requested span -/\n"
+            f"def ephemOrderArg (len : Nat) : Option Nat := {oa_main}\n\n"
+            "end BeyondVerif.Generated.KNIterSrc\n")
+
+
 def extract(ctx):
     tree = ast.parse(open(KN_PY).read())
     btext, values = translate_butcher(tree)
     body = "namespace KN\n\n" + PRELUDE + "\n" + btext + translate_accel(tree) + "\n" + translate_step_scale(tree) + "\nend KN\n"
     ch = py2lean.instantiate(core.LEAN, "KeplerNum", body, "beyond/propagators/keplernum.py")
+    itext = translate_iter(tree, ast.parse(open(os.path.join(core.REPO, "beyond", "orbits", "ephem.py")).read()))
+    if core.write_if_changed(os.path.join(core.LEAN, "BeyondVerif", "Generated", "KNIterSrc.lean"), itext):
+        ch.append("Generated/KNIterSrc.lean")
     ch += instantiate.main()
     # self-check of the reader against the live class attribute (bit-exact)
     from beyond.propagators.keplernum import KeplerNum
@@ -545,7 +720,363 @@ def correspondence(ctx):
                          observed=real, expected=model)
                 break
         out.sample({"request": req[:100] + "…", "impl": real, "model": model}, limit=3)
+    # 4. histories on one object (attribute assignments, copy, calls)
+    corr_histories(ctx, out, mu)
+    # 5. the tabulations `_iter` builds
+    corr_iter(ctx, out, mu)
     return out
+
+
+# ---------------------------------------------------------------- correspondence: histories on one KeplerNum object
+
+class _FixedBody:
+    """a point mass at rest in EME2000 (duck-typed body: `µ`, `propagate(date)`)"""
+
+    def __init__(self, name, mu, pos):
+        self.name = name
+        setattr(self, "μ", mu)      # `body.µ`: the identifier is NFKC-normalised by the parser to U+03BC
+        self.pos = list(pos)
+
+    def propagate(self, date):
+        from beyond.orbits import StateVector
+        return StateVector(self.pos + [0.0, 0.0, 0.0], date, "cartesian", "EME2000")
+
+    def tokens(self):
+        return [f2b(float(getattr(self, "μ")))] + [f2b(float(v)) for v in self.pos + [0.0, 0.0, 0.0]]
+
+
+def gen_history(rng, mu):
+    """(initial configuration, operations) of one history; operations as dicts"""
+    def far():
+        # Moon-like, Sun-like, and a heavier nearby mass: perturbations of 1e-6 .. 1e-3 of the central attraction
+        m_, d_ = rng.choice([(4.9e12, 3.8e8), (1.3e20, 1.5e11), (3.0e13, 1.0e9)])
+        u = [rng.uniform(-1, 1) for _ in range(3)]
+        n = math.sqrt(sum(x * x for x in u)) or 1.0
+        return _FixedBody("far", m_, [d_ * x / n for x in u])
+    central = _FixedBody("central", mu, [0.0, 0.0, 0.0])
+    name = lambda: rng.choice(METHODS + METHODS + ["RK4", "Dopri54", "rk5", "EULER"])
+    init = {"method": name(), "step": q(rng.uniform(5, 120)), "tol": 10 ** rng.uniform(-8, -2), "bodies": [central] + ([far()] if rng.random() < 0.3 else [])}
+    nb = len(init["bodies"])
+    step = init["step"]
+    ops = []
+    o = gen_orbit(rng, mu)
+    for _ in range(rng.randint(3, 9)):
+        r = rng.random()
+        if r < 0.45 or not ops:
+            h = step * rng.choice([1, 1, -1, 0.5, -0.25])
+            from datetime import timedelta as _td
+            ops.append({"op": "mk", "h": _td(seconds=h).total_seconds(), "y": o["x0"], "rv": (math.sqrt(sum(v * v for v in o["x0"][:3])), math.sqrt(sum(v * v for v in o["x0"][3:])))})
+            if rng.random() < 0.5:
+                o = gen_orbit(rng, mu)
+        elif r < 0.52:
+            ops.append({"op": "rb"})
+        elif r < 0.68:
+            ops.append({"op": "sm", "m": name()})
+        elif r < 0.76:
+            step = q(rng.uniform(5, 120))
+            ops.append({"op": "ss", "h": step})
+        elif r < 0.84:
+            ops.append({"op": "st", "t": 10 ** rng.uniform(-8, -2)})
+        elif r < 0.88:
+            bs = [central] + ([far()] if rng.random() < 0.5 else [])
+            nb = len(bs)
+            ops.append({"op": "sb", "bodies": bs})
+        elif r < 0.92:
+            nb += 1
+            ops.append({"op": "ab", "body": far()})
+        elif r < 0.95 and nb >= 2:
+            nb -= 1
+            ops.append({"op": "db"})
+        else:
+            ops.append({"op": "cp"})
+    if ops[-1]["op"] not in ("mk", "rb"):
+        ops.append({"op": "mk", "h": step, "y": o["x0"], "rv": (math.sqrt(sum(v * v for v in o["x0"][:3])), math.sqrt(sum(v * v for v in o["x0"][3:])))})
+    return init, ops
+
+
+def _seq_request(init, ops):
+    toks = ["c06seq", init["method"], f2b(init["step"]), f2b(init["tol"]), str(len(init["bodies"]))]
+    for b in init["bodies"]:
+        toks += b.tokens()
+    for op in ops:
+        k = op["op"]
+        if k == "mk":
+            toks += ["mk", f2b(op["h"])] + [f2b(v) for v in op["y"]]
+        elif k == "sm":
+            toks += ["sm", op["m"]]
+        elif k == "ss":
+            toks += ["ss", f2b(op["h"])]
+        elif k == "st":
+            toks += ["st", f2b(op["t"])]
+        elif k == "sb":
+            toks += ["sb", str(len(op["bodies"]))] + [t for b in op["bodies"] for t in b.tokens()]
+        elif k == "ab":
+            toks += ["ab"] + op["body"].tokens()
+        else:
+            toks.append(k)
+    return " ".join(toks)
+
+
+def _real_call(prop, op):
+    """one observable call on a real object -> reply in the driver's vocabulary (floats as a list)"""
+    from beyond.dates import timedelta
+    from beyond.orbits import Orbit
+    try:
+        if op["op"] == "rb":
+            return _tab_tokens(prop.butcher)
+        prop.orbit = Orbit(list(op["y"]), epoch(), "cartesian", "EME2000", None)
+        hs, y1 = prop._make_step(prop.orbit, timedelta(seconds=op["h"]))
+        return [hs.total_seconds()] + [float(v) for v in y1.base]
+    except KeyError:
+        return "unknown-name"
+    except RuntimeError:
+        return "runtime-error"
+    except IndexError:
+        return "index-error"
+
+
+def _step_agree(real, model, errs, op, tol, mu):
+    """None = agree, "skip" = incomparable (estimate within rounding noise of tol), else a description"""
+    r_, v_ = op["rv"]
+    noise = 2e-16 * abs(op["h"]) * v_
+    if any(abs(e - tol) <= noise for e in errs):
+        return "skip"
+    if isinstance(real, str) or isinstance(model, str):
+        return None if real == model else "outcome"
+    dh = abs(model[0] - real[0])
+    shrunk = abs(real[0]) < abs(op["h"])
+    allowed = (1e-6 + abs(real[0]) * (1e-9 + 2e-16 * abs(op["h"]) * v_ / tol)) if shrunk else 0.0
+    if dh > allowed:
+        return "accepted step size"
+    for i, (a, b) in enumerate(zip(real[1:], model[1:])):
+        sc = r_ if i < 3 else v_
+        rate = v_ if i < 3 else mu / r_ ** 2
+        if not core.close(a, b, rtol=1e-11, atol=1e-11 * sc + 2 * dh * rate, scale=max(abs(a), abs(b))):
+            return f"component {i}"
+    return None
+
+
+def corr_histories(ctx, out, mu):
+    """ONE real KeplerNum object driven through a random history of attribute assignments, `copy()` and calls, against the
+    model's state machine (`KN.runOps`); a call whose reply also differs from that of a fresh real object carrying the same
+    attribute values violates the property itself (re-use clause)"""
+    from beyond.dates import timedelta
+    from beyond.propagators.keplernum import KeplerNum
+    rng = ctx.rng
+    reqs, hist = [], []
+    for _ in range(ctx.n(260, 6000)):
+        init, ops = gen_history(rng, mu)
+        reqs.append(_seq_request(init, ops))
+        hist.append((init, ops))
+    replies = core.Driver().run(reqs)
+    for req, (init, ops), rep in zip(reqs, hist, replies):
+        model = rep.split(" ; ")
+        desc = {"initial": {"method": init["method"], "step": init["step"], "tol": init["tol"], "bodies": [[getattr(b, "μ")] + b.pos for b in init["bodies"]]},
+                "ops": [{k: ([getattr(x, "μ")] + x.pos if isinstance(x, _FixedBody) else [[getattr(b, "μ")] + b.pos for b in x] if k == "bodies" else x)
+                         for k, x in op.items() if k != "rv"} for op in ops]}
+        if len(model) != len(ops):
+            out.fail("c06-seq", "reply length of a history", desc, observed=len(ops), expected=rep[:200])
+            continue
+        prop = KeplerNum(timedelta(seconds=init["step"]), list(init["bodies"]), method=init["method"], tol=init["tol"])
+        since = []          # assignments since the previous observable call
+        ncall = 0
+        for k, (op, mrep) in enumerate(zip(ops, model)):
+            kind = op["op"]
+            if kind in ("mk", "rb"):
+                real = _real_call(prop, op)
+                ncall += 1
+                out.count(key=(req[:60], k, len(req)), nontrivial=ncall > 1 or bool(since), kind="history-" + kind,
+                          after="+".join(sorted(set(since))) or ("first-call" if ncall == 1 else "call"))
+                mtxt, _, e = mrep.partition(" | ")
+                errs = [b2f(t) for t in e.split()] if kind == "mk" else []
+                mval = mtxt if (kind == "rb" or not mtxt[:1].isdigit()) else [b2f(t) for t in mtxt.split()]
+                why = (None if real == mval else "tableau") if kind == "rb" else _step_agree(real, mval, errs, op, prop.tol, mu)
+                if why == "skip":
+                    out.tally("step-borderline-skipped")
+                elif why is not None:
+                    # what does a FRESH real object carrying the same attribute values return?
+                    f = KeplerNum(prop.step, list(prop.bodies), tol=prop.tol)
+                    f.method = prop.method
+                    fresh = _real_call(f, op)
+                    stale = (fresh != real) if (isinstance(fresh, str) or isinstance(real, str)) else any(
+                        not core.close(a, b, rtol=1e-12, atol=1e-9) for a, b in zip(fresh, real))
+                    fam = "reuse-history-after-" + ("+".join(sorted(set(since))) or "call") if stale else "c06-seq-" + kind
+                    out.fail(fam, ("a re-used KeplerNum object does not return what a fresh object with the same attribute values returns (" if stale else
+                                   "history on one object: model and implementation disagree (") + why + f") at operation {k}",
+                             dict(desc, at=k), observed=real if isinstance(real, str) else real[:7], expected=(fresh if stale else mval),
+                             violates_property=bool(stale))
+                    break
+                since = []
+                continue
+            since.append({"sm": "method", "ss": "step", "st": "tol", "sb": "bodies", "ab": "bodies-append", "db": "bodies-pop", "cp": "copy"}[kind])
+            real = "q"
+            try:
+                if kind == "sm":
+                    prop.method = op["m"]
+                elif kind == "ss":
+                    prop.step = timedelta(seconds=op["h"])
+                elif kind == "st":
+                    prop.tol = op["t"]
+                elif kind == "sb":
+                    prop.bodies = list(op["bodies"])
+                elif kind == "ab":
+                    prop.bodies.append(op["body"])
+                elif kind == "db":
+                    prop.bodies.pop()
+                elif kind == "cp":
+                    old_ = prop
+                    prop = prop.copy()
+                    lost = [a for a in ("method", "step", "tol", "bodies", "frame")
+                            if (getattr(prop, a) != (getattr(old_, a).lower() if a == "method" else getattr(old_, a)))]
+                    if lost:
+                        out.fail("copy-loses-" + "+".join(lost), "KeplerNum.copy() (the propagator attached to every orbit returned by propagate / iter) does not "
+                                 "carry the settings of the object it copies: a continued or split request integrates with other settings", dict(desc, at=k),
+                                 observed={a: str(getattr(prop, a)) for a in lost}, expected={a: str(getattr(old_, a)) for a in lost},
+                                 violates_property=old_.method in KeplerNum.BUTCHER)
+                        break
+            except KeyError:
+                real = "unknown-name"
+            except IndexError:
+                real = "index-error"
+            except (AttributeError, TypeError, ValueError) as e:
+                real = "raises-" + type(e).__name__
+            if mrep != real:
+                out.fail("c06-seq-" + kind, f"history on one object: an assignment / copy() at operation {k} is silent on one side and raises on the other",
+                         dict(desc, at=k), observed=real, expected=mrep)
+                break
+        out.sample({"history": [op["op"] for op in ops], "model": [m[:40] for m in model]}, limit=2)
+
+
+# ---------------------------------------------------------------- correspondence: the tabulations `_iter` builds
+
+def _us(d, e):
+    return int(round(((d.d - e.d) * 86400 + (d.s - e.s)) * 1e6))
+
+
+def observe_iter(orb, call):
+    """run `call(orb)` (which consumes an iteration of `orb`) and report what `KeplerNum._iter` did: its keyword arguments,
+    the accepted step sizes, the `Ephem` objects it built (dates, order)"""
+    import beyond.propagators.keplernum as KM
+    prop = orb.propagator
+    steps, kws, ephems = [], [], []
+    real_ephem = KM.Ephem
+
+    class RecEphem(real_ephem):
+        def __init__(self, orbits, method=None, order=None):
+            super().__init__(orbits, method=method, order=order)
+            ephems.append(([o.date for o in self._orbits], self.order, self.method))
+
+    orig_ms, orig_it = prop._make_step, prop._iter
+
+    def ms(o, s_):
+        r = orig_ms(o, s_)
+        steps.append(r[0])
+        return r
+
+    def it(**kwargs):
+        kws.append(dict(kwargs, _step_is_self=kwargs.get("step") is prop.step, _epoch=prop.orbit.date))
+        return orig_it(**kwargs)
+    KM.Ephem = RecEphem
+    prop._make_step, prop._iter = ms, it
+    try:
+        res = call(orb)
+    finally:
+        KM.Ephem = real_ephem
+        del prop._make_step, prop._iter
+    return res, kws, steps, ephems
+
+
+def corr_iter(ctx, out, mu):
+    """the tabulations (dates, interpolation order) `KeplerNum._iter` builds for a request, against `KNIter.iterTab` fed with
+    the accepted step sizes `_make_step` reported"""
+    from beyond.dates import timedelta, Date
+    from beyond.propagators.listeners import ApsideListener, NodeListener
+    rng = ctx.rng
+    td = lambda x: timedelta(seconds=x)
+    cases = []
+    for k in range(ctx.n(160, 3000)):
+        o = gen_orbit(rng, mu)
+        h = q(rng.uniform(5, 120))
+        m = METHODS[k % 4]
+        tol = 10 ** rng.uniform(-6, -2)
+        form = rng.choice(SHORT_FORMS + ["propagate", "propagate", "native-step", "native-backward", "listeners", "step-is-self"])
+        plan = plan_short(rng, o, h, m, tol=tol, form=form if form in SHORT_FORMS else "step-smaller")
+        span, outs = plan["span"], plan["out_step"]
+        orb = make(o["x0"], h, m, tol=tol)
+        d0 = orb.date
+        if form.startswith("step-"):
+            call = lambda ob: list(ob.iter(stop=td(span), step=td(outs)))
+        elif form == "ephem":
+            call = lambda ob: list(ob.ephem(stop=td(span), step=td(outs)))
+        elif form in ("dates-list", "dates-before-epoch", "dates-across-epoch"):
+            call = lambda ob: list(ob.iter(dates=[d0 + td(x) for x in plan["offsets"]]))
+        elif form == "dates-range":
+            call = lambda ob: list(ob.iter(dates=Date.range(d0, d0 + td(span), td(outs), inclusive=True)))
+        elif form == "backward-step":
+            call = lambda ob: list(ob.iter(stop=-td(span), step=td(outs)))
+        elif form == "backward-explicit":
+            call = lambda ob: list(ob.iter(start=d0, stop=d0 - td(span), step=-td(outs)))
+        elif form == "start-offset":
+            call = lambda ob: list(ob.iter(start=d0 + td(plan["start"]), stop=d0 + td(plan["start"] + span), step=td(outs)))
+        elif form == "propagate":
+            T = q(rng.uniform(-12, 12) * h) if rng.random() < 0.8 else h * rng.randint(-9, 9)
+            plan["T"] = T
+            call = lambda ob: [ob.propagate(td(T))]
+        elif form == "native-step":
+            call = lambda ob: list(ob.iter(stop=td(span)))
+        elif form == "native-backward":
+            call = lambda ob: list(ob.iter(stop=-td(span)))
+        elif form == "step-is-self":
+            call = lambda ob: list(ob.iter(stop=td(span), step=ob.propagator.step))
+        else:
+            L = [ApsideListener(), NodeListener()][k % 2]
+            call = lambda ob: list(ob.iter(stop=td(span), listeners=[L]))
+        plan["form"] = form
+        inp = dict(case_inp(o, h, span), **{k_: v for k_, v in plan.items() if k_ not in ("step", "span")})
+        try:
+            with _Budget(20):
+                res, kws, steps, ephems = observe_iter(orb, call)
+        except Exception as e:      # the oracle reports failing requests; here they cannot be compared
+            out.tally("iter-request-raised=" + type(e).__name__)
+            continue
+        if len(kws) != 1:
+            out.fail("c06-iter", "one request, several `_iter` calls", inp, observed=len(kws), expected=1)
+            continue
+        kw = kws[0]
+        e0 = kw["_epoch"]
+        dates = kw.get("dates")
+        if dates is not None:
+            if hasattr(dates, "start"):
+                start, stop = dates.start, dates.stop
+            else:
+                ds = [d0 + td(x) for x in plan["offsets"]]
+                start, stop = min(ds), max(ds)
+            sg = False
+        else:
+            start, stop = kw.get("start", e0), kw.get("stop")
+            sg = kw.get("step") is not None and not kw["_step_is_self"]
+        ls = bool(kw.get("listeners", []))
+        req = " ".join(["c06iter", "0", str(_us(start, e0)), str(_us(stop, e0)), str(int(dates is not None)), str(int(sg)), str(int(ls))]
+                       + [str(int(round(s_.total_seconds() * 1e6))) for s_ in steps])
+        cases.append((req, inp, e0, ephems, len(steps), form, m))
+    replies = core.Driver().run([c[0] for c in cases])
+    for (req, inp, e0, ephems, ncalls, form, m), rep in zip(cases, replies):
+        obs = [(sorted(_us(d, e0) for d in ds), order) for ds, order, _ in ephems]
+        toks = rep.split()
+        if len(toks) != 6:
+            out.fail("c06-iter", "the model runs out of step sizes or rejects the request: `_iter` made fewer `_make_step` calls than the model needs",
+                     inp, observed={"make_step_calls": ncalls, "ephems": [(len(d), o_) for d, o_ in obs]}, expected=rep[:100])
+            continue
+        pos = None if toks[0] == "none" else sorted(int(x) for x in toks[0].split(","))
+        main = sorted(int(x) for x in toks[1].split(","))
+        want = ([(pos, int(toks[3]))] if pos is not None else []) + [(main, int(toks[4]))]
+        out.count(key=req, nontrivial=ncalls > 0, kind="iter-tabulation-" + form, method=m, interpolated=toks[2] == "1", points=len(main),
+                  positioning=pos is not None)
+        if obs != want or ncalls != int(toks[5]):
+            out.fail("c06-iter-" + form, "the tabulations (dates, interpolation order) built by `KeplerNum._iter`, or its number of `_make_step` calls, differ from the model",
+                     inp, observed={"ephems": [(len(d), o_, d[:1], d[-1:]) for d, o_ in obs], "make_step_calls": ncalls},
+                     expected={"ephems": [(len(d), o_, d[:1], d[-1:]) for d, o_ in want], "make_step_calls": int(toks[5])})
+        out.sample({"request": req[:120], "impl": [(len(d), o_) for d, o_ in obs], "model": [(len(d), o_) for d, o_ in want]}, limit=2)
 
 
 # ---------------------------------------------------------------- oracle on the real API
@@ -634,10 +1165,12 @@ def check_rk4(out, o, h, T, mu, deep):
     if es[0] > bound:
         out.fail("rk4-error-bound", "RK4 result is farther from the analytical two-body solution than C*rp*(n h)^4*(1+nT)^2",
                  case_inp(o, h, T, method="rk4"), observed=es[0], expected=bound)
-    assessable = es[-1] > 0.05 and es[0] < 1e-3 * o["rp"]
-    out.count(key=("rk4-order", h, T, o["rp"]), nontrivial=assessable, kind="rk4-order", assessable=assessable)
+    # the finest pair whose errors are above the interpolation floor (propagate interpolates the target date: up to 15 mm)
+    pair = (es[1], es[2]) if es[2] > 0.05 else (es[0], es[1])
+    assessable = pair[1] > 0.05 and es[0] < 1e-3 * o["rp"]
+    out.count(key=("rk4-order", h, T, o["rp"]), nontrivial=assessable, kind="rk4-order", rk4_order_assessable=assessable)
     if assessable:
-        p = math.log2(es[-2] / es[-1])
+        p = math.log2(pair[0] / pair[1])
         # one-sided: over whole numbers of revolutions the h^4 term of the global error nearly cancels and the observed
         # order approaches 5 (4.90 on both pairs at e = 0.46, T = 2.9 periods); faster than 4 is not a violation
         if not (3.5 <= p <= 6.5):
@@ -670,7 +1203,7 @@ def check_euler(out, o, h, T, mu):
             return
         es.append(float(np.linalg.norm(r[:3] - ref[:3])))
     assessable = es[0] < 0.05 * o["rp"] and es[1] > 0.05
-    out.count(key=("euler", h, Te, o["rp"]), nontrivial=assessable, kind="euler-order", assessable=assessable, direction="back" if T < 0 else "fwd")
+    out.count(key=("euler", h, Te, o["rp"]), nontrivial=assessable, kind="euler-order", euler_order_assessable=assessable, direction="back" if T < 0 else "fwd")
     if assessable:
         p = math.log2(es[0] / es[1])
         if not (0.7 <= p <= 2.5):
@@ -769,6 +1302,8 @@ def check_independence(out, o, h, mu, method, rng, tol=1e-3):
     nh = o["n_p"] * h
     nT = o["n_p"] * dt
     bound = (0.012 + 0.5 * o["rp"] * nh ** 4 * (1 + nT) ** 2) if method == "rk4" else (0.012 + 10 * (dt / h + 8) * tol * (1 + nT))
+    if method == "euler":
+        bound = 0.012 + 2.0 * o["rp"] * nh * nT * (1 + nT) * math.exp(nT)
     if err > bound:
         out.fail(method + "-iter-error", "iterated state is farther from the analytical solution than the integrator's accuracy bound",
                  dict(inp, date_offset=dt), observed=err, expected=bound)
@@ -817,6 +1352,279 @@ def check_chained(out, o, h, T, mu, method, tol):
                  inp, observed=err, expected=bound)
 
 
+# ---------------------------------------------------------------- short spans and output grids (the padding rule of _iter)
+
+SHORT_FORMS = ["step-smaller", "step-equal", "step-larger", "step-incommensurate", "dates-list", "dates-range", "backward-step",
+               "backward-explicit", "dates-before-epoch", "dates-across-epoch", "start-offset", "ephem"]
+
+
+def plan_short(rng, o, h, method, tol=1e-3, form=None):
+    """a request over a span of 1..10 integration steps whose outputs are (mostly) not integration points; everything drawn
+    here is recorded so that a failure replays exactly"""
+    n = rng.randint(1, 10)
+    span = q(h * (n - rng.choice([0.0, 0.0, rng.uniform(0.05, 0.95)])))
+    if span <= 0:
+        span = q(h * n)
+    form = form or rng.choice(SHORT_FORMS)
+    ratio = {"step-smaller": rng.choice([0.1, 0.25, 1 / 3, 0.5, 0.77]), "step-equal": 1.0, "step-larger": rng.choice([1.5, 2.0, 3.0, 4.4]),
+             "step-incommensurate": rng.choice([1 / math.pi, math.sqrt(2) / 2, math.sqrt(2), math.e / 2])}.get(form, rng.choice([0.25, 0.37, 0.5, 1.0, 1.3]))
+    outs = max(q(ratio * h), 1e-3)
+    plan = {"form": form, "method": method, "tol": tol, "step": h, "nsteps": n, "span": span, "out_step": outs}
+    if form in ("dates-list", "dates-before-epoch", "dates-across-epoch"):
+        k = rng.randint(1, 5)
+        offs = [q(rng.uniform(0, span)) for _ in range(k)]
+        if form == "dates-before-epoch":
+            offs = [-x - q(rng.uniform(0, h)) for x in offs]
+        elif form == "dates-across-epoch":
+            offs = [x - q(span * rng.uniform(0.2, 0.8)) for x in offs]
+        plan["offsets"] = offs            # in the drawn (arbitrary) order
+    if form == "start-offset":
+        plan["start"] = q(h * rng.uniform(-3, 3))
+    return plan
+
+
+def run_short(out, o, mu, plan):
+    import numpy as np
+    from beyond.dates import timedelta, Date
+    form, method, tol, h, span, outs = plan["form"], plan["method"], plan["tol"], plan["step"], plan["span"], plan["out_step"]
+    orb = make(o["x0"], h, method, tol=tol)
+    d0 = orb.date
+    td = lambda x: timedelta(seconds=x)
+    inp = case_inp(o, h, span, **{k: v for k, v in plan.items() if k not in ("step", "span")})
+    same_grid = True          # the request integrates from the epoch itself: iterate and propagate share their integration points
+    if form.startswith("step-"):
+        pts = list(orb.iter(stop=td(span), step=td(outs)))
+        want_dates = [d0 + td(outs) * i for i in range(int(math.floor(span / outs + 1e-9)) + 1)]
+    elif form == "ephem":
+        pts = list(orb.ephem(stop=td(span), step=td(outs)))
+        want_dates = [d0 + td(outs) * i for i in range(int(math.floor(span / outs + 1e-9)) + 1)]
+    elif form in ("dates-list", "dates-before-epoch", "dates-across-epoch"):
+        want_dates = [d0 + td(x) for x in plan["offsets"]]
+        pts = list(orb.iter(dates=list(want_dates)))
+        same_grid = min(plan["offsets"]) == 0
+    elif form == "dates-range":
+        want_dates = list(Date.range(d0, d0 + td(span), td(outs), inclusive=True))
+        pts = list(orb.iter(dates=Date.range(d0, d0 + td(span), td(outs), inclusive=True)))
+    elif form == "backward-step":
+        pts = list(orb.iter(stop=-td(span), step=td(outs)))
+        want_dates = [d0 - td(outs) * i for i in range(int(math.floor(span / outs + 1e-9)) + 1)]
+    elif form == "backward-explicit":
+        pts = list(orb.iter(start=d0, stop=d0 - td(span), step=-td(outs)))
+        want_dates = [d0 - td(outs) * i for i in range(int(math.floor(span / outs + 1e-9)) + 1)]
+    elif form == "start-offset":
+        s0 = d0 + td(plan["start"])
+        pts = list(orb.iter(start=s0, stop=s0 + td(span), step=td(outs)))
+        want_dates = [s0 + td(outs) * i for i in range(int(math.floor(span / outs + 1e-9)) + 1)]
+        same_grid = plan["start"] == 0
+    else:
+        raise ValueError(form)
+    out.count(key=("short", form, method, h, span, outs, o["rp"]), kind="short-span-" + form, method=method, nsteps=plan["nsteps"])
+    got_dates = [p.date for p in pts]
+    if got_dates != want_dates:
+        # more dates than requested after `stop` belong to the iteration contract (C08); fewer, or other dates, are reported here
+        if got_dates[:len(want_dates)] != want_dates:
+            out.fail("short-span-dates-" + form, "iteration over a short span does not yield the requested dates", inp,
+                     observed=[(d - d0).total_seconds() for d in got_dates], expected=[(d - d0).total_seconds() for d in want_dates])
+            return
+        out.tally("short-span-extra-dates-after-stop(C08)")
+        pts = pts[:len(want_dates)]
+    vmax = math.sqrt(mu * (1 + o["e"]) / o["rp"])
+    tight = interp_tol(o, h, vmax)
+    nh = o["n_p"] * h
+    worst = (0.0, None)
+    for pt in pts:
+        dt = (pt.date - d0).total_seconds()
+        a = vec(pt)
+        if not _finite(out, "short-span-" + form, "iter", dict(inp, date_offset=dt), a):
+            return
+        nT = o["n_p"] * (abs(dt) + (0 if same_grid else abs(plan.get("start", 0.0)) + span))
+        N = abs(dt) / h + 8
+        acc = {"rk4": 0.5 * o["rp"] * nh ** 4 * (1 + nT) ** 2, "euler": 2.0 * o["rp"] * nh * (nT + 8 * nh) * (1 + nT) * math.exp(nT + 8 * nh)}.get(method, 10 * (N + 8) * tol * (1 + nT))
+        # (1) the same date by propagate(): same integration points when the request starts at the epoch (interpolation error
+        # only); otherwise the integration restarts from an interpolated state: within the accuracy of the integrator
+        single = vec(orb.propagate(pt.date))
+        d = float(np.linalg.norm(single[:3] - a[:3]))
+        lim = tight if same_grid else tight + 2 * acc
+        if not d <= lim:
+            out.fail("short-span-iter-vs-propagate-" + form, "over a short span, iterate and propagate(date) disagree at the same date by more than the interpolation error"
+                     + ("" if same_grid else " and the accuracy of the integrator"), dict(inp, date_offset=dt), observed=d, expected=lim)
+            return
+        # (2) the analytical solution
+        err = float(np.linalg.norm(a[:3] - kepler_ref(o["x0"], dt, mu)[:3]))
+        lim2 = 0.012 + tight + acc
+        if err > worst[0]:
+            worst = (err, dt)
+        if not err <= lim2:
+            out.fail("short-span-vs-analytical-" + form, "over a short span, the iterated state is farther from the analytical two-body solution than the accuracy of the "
+                     "integrator plus the interpolation error", dict(inp, date_offset=dt), observed=err, expected=lim2)
+            return
+
+
+# ---------------------------------------------------------------- one propagator object re-used with changed attributes
+
+REUSE_ATTRS = ["method", "step", "tol", "bodies", "bodies-inplace", "frame", "maneuvers", "orbit"]
+
+
+def plan_reuse(rng, o, first=None):
+    """a history on ONE KeplerNum object: legs of (attribute changes, one call); every drawn value is recorded"""
+    cfg = {"method": rng.choice(METHODS), "step": q(rng.uniform(5, 120)), "tol": 10 ** rng.uniform(-6, -2), "bodies": ["Earth"], "frame": "EME2000",
+           "maneuvers": []}
+    legs = []
+    for k in range(rng.randint(2, 4)):
+        sets = {}
+        if k > 0:
+            attrs = [first] if (first and k == 1) else rng.sample(REUSE_ATTRS, rng.choice([1, 1, 2]))
+            for a in attrs:
+                if a == "method":
+                    sets["method"] = rng.choice([m for m in METHODS if m != cfg["method"]])
+                elif a == "step":
+                    sets["step"] = q(cfg["step"] * rng.choice([0.25, 0.5, 2.0, 0.37])) if rng.random() < 0.7 else q(rng.uniform(5, 120))
+                    sets["step"] = min(max(sets["step"], 5.0), 240.0)
+                elif a == "tol":
+                    sets["tol"] = cfg["tol"] * rng.choice([1e-3, 1e-2, 1e2, 1e3])
+                elif a == "bodies":
+                    sets["bodies"] = ["Earth", "Moon"] if cfg["bodies"] == ["Earth"] else ["Earth"]
+                elif a == "bodies-inplace":
+                    sets["bodies-inplace"] = "append-Moon" if "Moon" not in cfg["bodies"] else "remove-Moon"
+                elif a == "frame":
+                    sets["frame"] = "TOD" if cfg["frame"] == "EME2000" else "EME2000"
+                elif a == "maneuvers":
+                    sets["maneuvers"] = [] if cfg["maneuvers"] else [{"at": q(cfg["step"] * rng.uniform(0.5, 3)), "dv": [rng.uniform(-5, 5) for _ in range(3)]}]
+                elif a == "orbit":
+                    sets["orbit"] = 1 - legs[-1]["orbit"]
+        for a, v in sets.items():
+            if a == "bodies-inplace":
+                cfg["bodies"] = cfg["bodies"] + ["Moon"] if v == "append-Moon" else [b for b in cfg["bodies"] if b != "Moon"]
+            elif a != "orbit":
+                cfg[a] = v
+        n = rng.uniform(1, 25) if "Moon" not in cfg["bodies"] else rng.uniform(1, 6)
+        T = q(math.copysign(cfg["step"] * n, rng.choice([1, 1, -1])))
+        call = rng.choice(["propagate", "propagate", "iter-step", "iter-dates"])
+        legs.append({"set": sets, "call": call, "T": T, "out_step": q(abs(T) / rng.choice([1.0, 2.5, 4.0])) or 1e-3,
+                     "orbit": sets.get("orbit", legs[-1]["orbit"] if legs else 0), "cfg": dict(cfg)})
+    c0 = dict(legs[0]["cfg"])
+    return {"initial": c0, "legs": legs}
+
+
+def _bodies(names):
+    from beyond.env.solarsystem import get_body
+    return [get_body(n) for n in names]
+
+
+def _mans(orb, specs):
+    from beyond.orbits.man import ImpulsiveMan
+    from beyond.dates import timedelta
+    return [ImpulsiveMan(orb.date + timedelta(seconds=m["at"]), list(m["dv"]), frame="TNW") for m in specs]
+
+
+def _reuse_call(orb, leg):
+    """the call of one leg -> list of (date, state in EME2000 cartesian)"""
+    import numpy as np
+    from beyond.dates import timedelta
+    td = lambda x: timedelta(seconds=x)
+    if leg["call"] == "propagate":
+        res = [orb.propagate(td(leg["T"]))]
+    elif leg["call"] == "iter-step":
+        res = list(orb.iter(stop=td(leg["T"]), step=td(leg["out_step"])))
+    else:
+        res = list(orb.iter(dates=[orb.date + td(leg["T"]), orb.date + td(leg["T"] / 2), orb.date + td(leg["T"] / 3)]))
+    return [(r.date, np.array([float(v) for v in r.copy(frame="EME2000", form="cartesian").base])) for r in res]
+
+
+def run_reuse(out, o, mu, plan):
+    import numpy as np
+    from beyond.orbits import Orbit
+    from beyond.dates import timedelta
+    from beyond.propagators.keplernum import KeplerNum
+    c0 = plan["initial"]
+    prop = KeplerNum(timedelta(seconds=c0["step"]), _bodies(c0["bodies"]), method=c0["method"], frame=c0["frame"], tol=c0["tol"])
+    # two orbit objects may share the propagator object: the same state at the same date (so that the reference is the same)
+    orbs = [Orbit(list(o["x0"]), epoch(), "cartesian", "EME2000", prop) for _ in range(2)]
+
+    def fresh(cfg, override=None):
+        c = dict(cfg)
+        c.update(override or {})
+        f = Orbit(list(o["x0"]), epoch(), "cartesian", "EME2000",
+                  KeplerNum(timedelta(seconds=c["step"]), _bodies(c["bodies"]), method=c["method"], frame=c["frame"], tol=c["tol"]))
+        f.maneuvers = _mans(f, c["maneuvers"])
+        return f
+
+    prev = dict(c0)
+    changed = {}        # attribute -> value it had before its last change
+    for k, leg in enumerate(plan["legs"]):
+        cfg = leg["cfg"]
+        for a, v in leg["set"].items():
+            if a == "method":
+                prop.method = v
+            elif a == "step":
+                prop.step = timedelta(seconds=v)
+            elif a == "tol":
+                prop.tol = v
+            elif a == "bodies":
+                prop.bodies = _bodies(v)
+            elif a == "bodies-inplace":
+                if v == "append-Moon":
+                    prop.bodies.append(_bodies(["Moon"])[0])
+                else:
+                    prop.bodies[:] = [b for b in prop.bodies if b.name != "Moon"]
+            elif a == "frame":
+                prop.frame = v
+            elif a == "maneuvers":
+                for ob in orbs:
+                    ob.maneuvers = _mans(ob, v)
+        for a in ("method", "step", "tol", "bodies", "frame", "maneuvers"):
+            if cfg[a] != prev[a]:
+                changed[a] = prev[a]
+        prev = dict(cfg)
+        orb = orbs[leg["orbit"]]
+        inp = case_inp(o, cfg["step"], leg["T"], method=cfg["method"], tol=cfg["tol"], plan=plan, leg=k)
+        got = _reuse_call(orb, leg)
+        want = _reuse_call(fresh(cfg), leg)
+        out.count(key=("reuse", k, repr(leg["set"]), cfg["method"], cfg["step"], leg["T"], o["rp"]), nontrivial=k > 0, kind="reuse-" + leg["call"],
+                  changed="+".join(sorted(leg["set"])) or "nothing", method=cfg["method"])
+        bad = None
+        if [d for d, _ in got] != [d for d, _ in want]:
+            bad = ("dates", [str(d) for d, _ in got], [str(d) for d, _ in want])
+        else:
+            for (d, a), (_, b) in zip(got, want):
+                if not np.all(np.isfinite(a)):
+                    bad = ("non-finite state", [float(v) for v in a], [float(v) for v in b])
+                    break
+                dd = float(np.linalg.norm(a[:3] - b[:3]))
+                if not dd <= 1e-6:
+                    bad = ("position differs by %.6g m at %s" % (dd, d), [float(v) for v in a], [float(v) for v in b])
+                    break
+        if bad:
+            # which attribute does the re-used object still see with its former value?
+            stale = []
+            for a, old in changed.items():
+                try:
+                    alt = _reuse_call(fresh(cfg, {a: old}), leg)
+                    if len(alt) == len(got) and all(float(np.linalg.norm(x[1][:3] - y[1][:3])) <= 1e-6 for x, y in zip(alt, got)):
+                        stale.append(a)
+                except Exception:
+                    pass
+            fam = ("reuse-stale-" + "+".join(sorted(stale))) if stale else ("reuse-differs-after-set-" + ("+".join(sorted(changed)) or "nothing"))
+            out.fail(fam, "a KeplerNum object whose public attributes were changed between two calls does not return what a fresh propagator configured with the "
+                          "current values returns (" + bad[0] + ")" + (": it still integrates with the former " + ", ".join(stale) if stale else ""),
+                     inp, observed=bad[1], expected=bad[2])
+            return
+        # the result is the two-body solution within the accuracy of the CURRENT configuration
+        if cfg["bodies"] == ["Earth"] and not cfg["maneuvers"] and cfg["method"] != "euler" and cfg["frame"] == "EME2000":
+            h, T = cfg["step"], leg["T"]
+            nh, vmax = o["n_p"] * h, math.sqrt(mu * (1 + o["e"]) / o["rp"])
+            for d, a in got:
+                dt = (d - orb.date).total_seconds()
+                nT = o["n_p"] * abs(dt)
+                acc = (0.5 * o["rp"] * nh ** 4 * (1 + nT) ** 2) if cfg["method"] == "rk4" else 10 * (abs(dt) / h + 16) * cfg["tol"] * (1 + nT)
+                err = float(np.linalg.norm(a[:3] - kepler_ref(o["x0"], dt, mu)[:3]))
+                lim = 0.012 + acc + interp_tol(o, h, vmax)
+                if not err <= lim:
+                    out.fail("reuse-error-" + cfg["method"], "after its attributes were changed, the propagator's result is farther from the analytical solution than the "
+                             "accuracy of the configuration now set", dict(inp, date_offset=dt), observed=err, expected=lim)
+                    return
+
+
 def oracle(ctx, widened):
     out = Outcome()
     rng = ctx.rng
@@ -826,7 +1634,25 @@ def oracle(ctx, widened):
     cap = 900 if big else 130     # integration steps per run (the +-3 orbit quantifier is reached in the thorough tier)
     t_start = time.time()
     stuck = {}
-    for k in range(ncases):
+    known = core.load_known()
+    B = 40 if big else 20
+
+    def run(fam, inp_, fn, *args):
+        # a family that made no progress twice is not tried again (each attempt costs the whole budget B)
+        if stuck.get(fam, 0) >= 2:
+            out.tally("skipped-after-no-progress=" + fam)
+            return
+        n0 = len(out.failures)
+        guarded(out, B, fam, inp_, fn, *args)
+        if any(f["family"].endswith("-no-progress") for f in out.failures[n0:]):
+            stuck[fam] = stuck.get(fam, 0) + 1
+
+    def found():
+        # something no longer checks (widened sweep, quick tier): the sweep has done its job as soon as it holds a failing input
+        # that is not a listed open finding
+        return widened and not ctx.thorough and any(core.match_known(ID, f, known) is None for f in out.failures)
+
+    def draw():
         o = gen_orbit(rng, mu)
         h = q(rng.uniform(5, 120)) if rng.random() < 0.8 else rng.choice([5.0, 120.0, 60.0])
         T = q(rng.uniform(-3, 3) * o["period"])
@@ -836,34 +1662,95 @@ def oracle(ctx, widened):
             T = math.copysign(h * rng.randint(1, 12), T)   # on a node, short spans included
         if T == 0:
             T = h
+        return o, h, T
+
+    # ---- phase A: the cheap families (a few dozen integration steps each), every method, both directions
+    nA = ncases * 2
+    for k in range(nA):
+        if found():
+            break
+        if time.time() - t_start > (120 if ctx.thorough else 60 if widened else 14):
+            out.notes.append(f"oracle phase A stopped after {k} of {nA} orbits: time budget of the tier reached")
+            break
+        o, h, T = draw()
+        tol = 10 ** rng.uniform(-6, -2)
+        m = METHODS[k % 4]
+        plan = plan_short(rng, o, h, m, tol=tol if k % 2 else 1e-3, form=SHORT_FORMS[(k // 4) % len(SHORT_FORMS)] if k % 3 else None)
+        run("short-span-" + plan["form"], dict(case_inp(o, h, plan["span"]), **plan), run_short, out, o, mu, plan)
+        # adaptive integrators over at most 30 steps, forward and backward in turn, coarse steps included
+        Ts = q(math.copysign(min(abs(T), h * rng.uniform(1, 30)), 1 if k % 2 else -1))
+        ma = ADAPTIVE[(k // 2) % 2]
+        t_ = 1e-3 if k % 4 < 2 else tol
+        run(ma, dict(case_inp(o, h, Ts), method=ma, tol=t_), check_adaptive, out, o, h, Ts, mu, ma, t_)
+        if k % 2 == 0:
+            rp_ = plan_reuse(rng, o, first=REUSE_ATTRS[(k // 2) % len(REUSE_ATTRS)] if k % 4 == 0 else None)
+            run("reuse", dict(case_inp(o, rp_["initial"]["step"], 0.0), plan=rp_), run_reuse, out, o, mu, rp_)
+        else:
+            m2 = METHODS[1 + (k // 2) % 3]
+            Tc = q(math.copysign(min(abs(T), h * rng.uniform(2, 40)), T))
+            run("chained-" + m2, dict(case_inp(o, h, Tc), method=m2, tol=tol), check_chained, out, o, h, Tc, mu, m2, tol)
+    # ---- phase B: convergence order by step halving, long spans
+    for k in range(ncases):
+        if found():
+            break
+        o, h, T = draw()
         out.tally("full-3-orbit-horizon" if abs(T) >= 0.99 * 3 * o["period"] else "horizon<3 orbits")
         inp = case_inp(o, h, T)
-        B = 40 if big else 20
-        if time.time() - t_start > (480 if ctx.thorough else 330 if widened else 45):
+        if time.time() - t_start > (480 if ctx.thorough else 330 if widened else 42):
             out.notes.append(f"oracle stopped after {k} of {ncases} orbits: time budget of the tier reached")
             break
-
-        def run(fam, inp_, fn, *args):
-            # a family that made no progress twice is not tried again (each attempt costs the whole budget B)
-            if stuck.get(fam, 0) >= 2:
-                out.tally("skipped-after-no-progress=" + fam)
-                return
-            n0 = len(out.failures)
-            guarded(out, B, fam, inp_, fn, *args)
-            if any(f["family"].endswith("-no-progress") for f in out.failures[n0:]):
-                stuck[fam] = stuck.get(fam, 0) + 1
         run("rk4", inp, check_rk4, out, o, h, T, mu, big and k % 4 == 0)
         run("euler", inp, check_euler, out, o, h, T, mu)
         tol = 10 ** rng.uniform(-6, -2)
-        for method in ADAPTIVE:
-            t_ = 1e-3 if k % 2 else tol
-            run(method, dict(inp, method=method, tol=t_), check_adaptive, out, o, h, T, mu, method, t_)
-        m = METHODS[1 + k % 3]
+        method = ADAPTIVE[k % 2]
+        t_ = 1e-3 if k % 4 < 2 else tol
+        run(method, dict(inp, method=method, tol=t_), check_adaptive, out, o, h, T, mu, method, t_)
+        m = METHODS[k % 4]
         run("independence-" + m, dict(inp, method=m), check_independence, out, o, h, mu, m, rng)
         m2 = METHODS[1 + (k + 1) % 3]
         run("chained-" + m2, dict(inp, method=m2, tol=tol), check_chained, out, o, h, T, mu, m2, tol)
-    out.sample({"checks": "rk4 order by step halving + error bound + first integrals; euler order; rkf54/dopri54 global error, drift, one-step error <= 2 tol; "
-                          "independence of output step, dates vs step, propagate vs iterate; chained propagate keeps settings"})
+    out.sample({"checks": "short spans (1..10 integration steps; output step smaller / equal / larger / incommensurate, date lists, ranges, backward, "
+                          "offset start, Orbit.ephem) iterate vs propagate vs analytical, every method; one KeplerNum object re-used after changes of "
+                          "method / step / tol / bodies / frame / maneuvers / bound orbit vs a fresh propagator; rk4 order by step halving + error bound + "
+                          "first integrals; euler order; rkf54/dopri54 global error, drift, one-step error <= 2 tol; independence of output step, dates vs "
+                          "step, propagate vs iterate; chained propagate keeps settings"})
+    return out
+
+
+def replay_history(out, i):
+    """a recorded history on one real object: at every call, the re-used object against a fresh one with the same attribute values"""
+    from beyond.dates import timedelta
+    from beyond.propagators.keplernum import KeplerNum
+    mk = lambda b: _FixedBody("b", b[0], b[1:4])
+    init = i["initial"]
+    prop = KeplerNum(timedelta(seconds=init["step"]), [mk(b) for b in init["bodies"]], method=init["method"], tol=init["tol"])
+    for k, op in enumerate(i["ops"]):
+        kind = op["op"]
+        if kind in ("mk", "rb"):
+            real = _real_call(prop, op)
+            fr = KeplerNum(prop.step, list(prop.bodies), tol=prop.tol)
+            fr.method = prop.method
+            fresh = _real_call(fr, op)
+            stale = (fresh != real) if (isinstance(fresh, str) or isinstance(real, str)) else any(
+                not core.close(a, b, rtol=1e-12, atol=1e-9) for a, b in zip(fresh, real))
+            if stale:
+                out.fail("reuse-history", f"a re-used KeplerNum object does not return what a fresh object with the same attribute values returns at operation {k}",
+                         i, observed=real if isinstance(real, str) else real[:7], expected=fresh if isinstance(fresh, str) else fresh[:7])
+                break
+        elif kind == "sm":
+            prop.method = op["m"]
+        elif kind == "ss":
+            prop.step = timedelta(seconds=op["h"])
+        elif kind == "st":
+            prop.tol = op["t"]
+        elif kind == "sb":
+            prop.bodies = [mk(b) for b in op["bodies"]]
+        elif kind == "ab":
+            prop.bodies.append(mk(op["body"]))
+        elif kind == "db":
+            prop.bodies.pop()
+        elif kind == "cp":
+            prop = prop.copy()
     return out
 
 
@@ -872,13 +1759,21 @@ def replay(f):
     out = Outcome()
     mu = float(earth().µ)
     i = f["input"]
+    if f["family"].startswith("reuse-history"):
+        return replay_history(out, i)
     e, rp = i["e"], i["rp"]
     o = {"x0": i["x0"], "e": e, "rp": rp, "a": rp / (1 - e), "period": 2 * math.pi * math.sqrt((rp / (1 - e)) ** 3 / mu),
          "n_p": math.sqrt(mu * (1 + e) / rp ** 3)}
     fam = f["family"]
     import random
     B = 120
-    if fam.startswith("rk4"):
+    if fam.startswith("short-span"):
+        plan = {k_: i[k_] for k_ in ("form", "method", "tol", "nsteps", "out_step", "offsets", "start") if k_ in i}
+        plan.update(step=i["step"], span=i["T"])
+        guarded(out, B, "short-span-" + plan["form"], i, run_short, out, o, mu, plan)
+    elif fam.startswith("reuse"):
+        guarded(out, B, "reuse", i, run_reuse, out, o, mu, i["plan"])
+    elif fam.startswith("rk4"):
         guarded(out, B, "rk4", i, check_rk4, out, o, i["step"], i["T"], mu, False)
     elif fam.startswith("euler"):
         guarded(out, B, "euler", i, check_euler, out, o, i["step"] * (4 if fam in ("euler-order", "euler-error-bound") else 1), i["T"], mu)
